@@ -129,7 +129,8 @@ def handleClean (j : Json) : Except String Json := do
   return Json.mkObj [("clean", String.ofList (Path.cleanFn q)), ("lexiclean", String.ofList (Path.lexiclean q)),
     ("file_name", o (Path.fileName q)), ("extension", o (Path.extensionOf q)), ("file_stem", o (Path.fileStem q)),
     ("parent_directory", o (Path.parentStr q)), ("without_extension", o (Path.withoutExtension q)),
-    ("join", match parts with | b :: ws => Json.str (String.ofList (Path.joinPaths b ws)) | [] => Json.null)]
+    ("join", match parts with | b :: ws => Json.str (String.ofList (Path.joinPaths b ws)) | [] => Json.null),
+    ("searchClean", match parts with | [inv, rel] => Json.str (String.ofList (Path.searchClean inv rel)) | _ => Json.null)]
 
 /-- {"op":"entries","decls":[Decl],"aliases":[AliasOf]} → the `--list` entries of each recipe -/
 def handleEntries (j : Json) : Except String Json := do
